@@ -52,14 +52,22 @@ def ev_value(c, t):
     return t - c
 
 
-def make_events(specs):
-    """specs: list of (c, direction, terminal) — event functions g_i(t, y) = t - c_i, or a nonlinear function of t (see ev_value)"""
+def make_events(specs, reuse_buffer=False):
+    """specs: list of (c, direction, terminal) — event functions g_i(t, y) = t - c_i, or a nonlinear function of t (see ev_value).
+    reuse_buffer: the function writes into one preallocated array and returns it on every call (legal user code, D77)"""
     if not specs:
         return None
     dirs = np.array([s[1] for s in specs], dtype=float)
     term = np.array([bool(s[2]) for s in specs])
     if not any(isinstance(s[0], tuple) for s in specs):
         cs = np.array([s[0] for s in specs], dtype=float)
+        if reuse_buffer:
+            buf = np.zeros(len(specs))
+
+            def ev_buf(t, y):
+                buf[:] = t - cs
+                return buf, term, dirs
+            return ev_buf
 
         def ev(t, y):
             return t - cs, term, dirs
@@ -72,13 +80,13 @@ def make_events(specs):
     return ev_nl
 
 
-def run_rodas(dae, y0, tspan, optkw, specs=()):
+def run_rodas(dae, y0, tspan, optkw, specs=(), reuse_buffer=False):
     """returns (sol or exception, trace)"""
     from Solverz import Rodas, Opt
     import Solverz.solvers.daesolver.rodas.rodas as R
     assert R._VERIF, "SOLVERZ_VERIF hook is not active"
     R._verif_trace.clear()
-    opt = Opt(event=make_events(list(specs)), **optkw)
+    opt = Opt(event=make_events(list(specs), reuse_buffer=reuse_buffer), **optkw)
     try:
         sol = quiet(Rodas, dae, tspan, y0.copy(), opt)
     except Exception as ex:  # noqa
